@@ -870,6 +870,17 @@ macro_rules! field_fn {
         let scale: f64 = c.iter().map(|v| v.abs_dd().to_f64()).fold(0.0, f64::max) * (1.0 + x0.abs() + y0.abs()).powi(2);
         let tol = 512.0 * 1.1e-16 * scale * 6.0;
         let shape = concat!("field path ", $name);
+        // the scalar drivers through the same path
+        {
+            let u = x0 * y0;
+            let (f, d1) = first_derivative(|t: Dual64| nalgebra::ComplexField::$m(t), u);
+            $ctx.check_tol("first_derivative", shape, "value", f, c[0], tol);
+            $ctx.check_tol("first_derivative", shape, "d1", d1, c[1], tol);
+            let (f, d1, d2) = second_derivative(|t: Dual2_64| nalgebra::ComplexField::$m(t), u);
+            $ctx.check_tol("second_derivative", shape, "value", f, c[0], tol);
+            $ctx.check_tol("second_derivative", shape, "d1", d1, c[1], tol);
+            $ctx.check_tol("second_derivative", shape, "d2", d2, c[2].mul_f(2.0), tol);
+        }
         let (f, g) = gradient(|v: SVector<DualSVec64<2>, 2>| nalgebra::ComplexField::$m(v[0].clone() * v[1].clone()), SVector::from([x0, y0]));
         $ctx.check_tol("gradient", shape, "value", f, c[0], tol);
         $ctx.check_tol("gradient", shape, "g[0]", g[0], g1.mul_f(y0), tol);
